@@ -18,9 +18,16 @@ pub struct FlattenedJson {
 
 impl FlattenedJson {
     /// Create a `FlattenedJson` from `Raw`.
+    ///
+    /// `Raw` only guarantees well-formed JSON, so it can hold documents that cannot be converted
+    /// to a `serde_json::Value` (nesting deeper than its recursion limit, numbers out of range).
+    /// Such a document is flattened to an empty `FlattenedJson`.
     pub fn from_raw<T>(raw: &Raw<T>) -> Self {
         let mut s = Self { map: BTreeMap::new() };
-        s.flatten_value(to_json_value(raw).unwrap(), "".into());
+        match to_json_value(raw) {
+            Ok(value) => s.flatten_value(value, "".into()),
+            Err(error) => warn!("Failed to flatten JSON: {error}"),
+        }
         s
     }
 
